@@ -138,7 +138,7 @@ theorem readBranch_sem (hT : h.Topo) {pl : Plug π β} {pre : List Branch} {rp0 
     {rp' : Repo β} {rb : RBranch β} (inv : RepoInv h pre rp0)
     (hr : readBranch h pl pre.isEmpty rp0 b = .ok (rp', rb)) :
     RepoInv h (pre ++ [b]) rp' ∧ BrSem h pre b rp'.rcs rb ∧ ∃ ext, rp'.rcs = rp0.rcs ++ ext := by
-  obtain ⟨st, rheads, hv, he⟩ := readBranch_inv hr
+  obtain ⟨hc0, st, rheads, hhc0, hv, he⟩ := readBranch_inv hr
   have H := attr_hyps (h := h) hT pl b.head rp0
   have hP0 : (WF h (⟨rp0, Br.empty⟩ : St β) ∧ Sem h rp0) ∧ Attr h rp0 b.head ⟨rp0, Br.empty⟩ :=
     ⟨⟨inv.wf, inv.sem⟩, attr_init rp0 b.head inv.wf⟩
@@ -339,11 +339,11 @@ theorem repoInv_empty : RepoInv h [] (Repo.empty : Repo β) :=
     cover := by intro c; simp [classify, Repo.empty] }
 
 /-- the meaning of every branch of the final graph -/
-theorem rgraph_sem (hT : h.Topo) {pl : Plug π β} {g : Graph β} (hg : rgraph h pl = .ok g) :
+theorem rgraph_sem (hT : h.Topo) {pl : Plug π β} {g : Graph β} {mt : Option Nat} (hg : rgraphNW h pl mt = .ok g) :
     g.all.length = (branchesOf h).length ∧
     ∀ j b rb, (branchesOf h)[j]? = some b → g.all[j]? = some rb →
       BrSem h ((branchesOf h).take j) b g.rcs rb ∧ rb.name = b.name := by
-  unfold rgraph at hg
+  unfold rgraphNW at hg
   split at hg
   · cases hg
   · rename_i rp rbs hr
@@ -354,7 +354,7 @@ theorem rgraph_sem (hT : h.Topo) {pl : Plug π β} {g : Graph β} (hg : rgraph h
           ∃ ext, rp'.rcs = rp.rcs ++ ext := by
       intro pre rp b rp' rb inv hrb
       obtain ⟨h1, h2, h3⟩ := readBranch_sem hT inv hrb
-      obtain ⟨st, rheads, _, he⟩ := readBranch_inv hrb
+      obtain ⟨hc0, st, rheads, hhc0, _, he⟩ := readBranch_inv hrb
       exact ⟨h1, ⟨h2, (endBranch_spec he).name⟩, h3⟩
     obtain ⟨_, _, hlen, hF⟩ := readBranches_ind2 (RepoInv h)
       (fun pre b rp' rb => BrSem h pre b rp'.rcs rb ∧ rb.name = b.name)
